@@ -89,7 +89,17 @@ func JobUnitFor(u *ws.Unit) rt.JobUnit {
 	ju := rt.JobUnit{Name: u.Name, Cell: u.Spec.Cell}
 	for _, f := range u.Spec.Files {
 		ju.Package = f.Package
-		f.Walk(func(fq string, m *spec.Message) { ju.Messages = append(ju.Messages, fq) })
+		f.Walk(func(fq string, m *spec.Message) {
+			ju.Messages = append(ju.Messages, fq)
+			for _, fl := range m.Fields {
+				if len(fl.Examples) > 0 {
+					if ju.FieldExamples == nil {
+						ju.FieldExamples = map[string][]string{}
+					}
+					ju.FieldExamples[fq+"."+fl.Name] = fl.Examples
+				}
+			}
+		})
 		goPkg := u.Name
 		if f.GoPackage != "" {
 			gp := f.GoPackage
